@@ -5,6 +5,7 @@
 package cmd
 
 import (
+	"github.com/Masterminds/semver/v3"
 	"os"
 	"path"
 	"path/filepath"
@@ -676,6 +677,113 @@ func OpaqueGlob(pattern string) []string { m, _ := filepath.Glob(pattern); retur
 //@   checks[C18] file-bytes-reach-the-assembler-unchanged: implies(called(Run) && called(ReadFile), argOf(Run, 0) == lastRead())
 //@   checks[C18] stdin-bytes-reach-the-assembler-unchanged: implies(called(Run) && called(ReadAll), argOf(Run, 0) == resultOf(ReadAll, 0))
 //@   checks[C18] one-source: implies(called(Run), called(ReadFile) != called(ReadAll))
+
+// ---- C16 / C09: the format command returns what processFile / processAll report (cobra turns
+// a returned error into a non-zero exit status), and processAll fails when one file failed
+//@ contract createFormatCommand#1
+//@   tags C16 C09
+//@   safety none
+//@   results r
+//@   modifies fsWrites
+//@   checks[C16,C09] single-file-verdict-is-returned: implies(called(processFile), r == resultOf(processFile, 0))
+//@   checks[C16,C09] all-files-verdict-is-returned: implies(called(processAll), r == resultOf(processAll, 0))
+//@   checks[C16,C09] something-was-formatted: implies(r == nil, called(processFile) || called(processAll))
+
+//@ contract processAll
+//@   tags C16 C09
+//@   results r
+//@   modifies fsWrites
+//@   checks[C16,C09] a-failed-file-fails-the-run: implies(failed, r != nil)
+//@   checks[C16] a-failed-walk-fails-the-run: implies(called(WalkDir) && resultOf(WalkDir, 0) != nil, r != nil)
+
+// ---- C12 / C16: compare returns the verdict: the single-rule verdict as it is, and in an
+// --all run in GitHub mode a remembered difference fails the run
+//@ contract performCompare
+//@   tags C12 C16
+//@   opt trust-pre processRegexForCompare/id-shape
+//@   results r
+//@   checks[C12,C16] single-rule-verdict-is-returned: implies(!processAll, called(processRegexForCompare) && r == resultOf(processRegexForCompare, 0))
+//@   checks[C12,C18] single-rule-uses-the-parsed-values: implies(!processAll, argOf(processRegexForCompare, 0) == ruleValues.id && argOf(processRegexForCompare, 1) == ruleValues.chainOffset)
+//@   checks[C12,C16] a-difference-fails-the-github-run: implies(processAll && failed && rootValues.output == gitHub, r != nil)
+
+//@ contract performUpdate
+//@   tags C11 C18
+//@   opt trust-pre processRule/id-shape
+//@   modifies fsWrites
+//@   checks[C11,C18] single-rule-uses-the-parsed-values: implies(!processAll, called(processRule) && argOf(processRule, 0) == ruleValues.id && argOf(processRule, 1) == ruleValues.chainOffset)
+
+//@ contract createCompareCommand#2
+//@   tags C12 C16
+//@   safety none
+//@   results r
+//@   checks[C12,C16] verdict-is-returned: implies(called(performCompare), r == resultOf(performCompare, 0))
+//@   checks[C12,C16] compare-was-run: implies(r == nil, called(performCompare))
+
+// ---- C13 / C16: renumber-tests: a missing or ambiguous test file is an error, and the command
+// returns what the renumberer reports
+//@ contract parseFilePath
+//@   tags C13 C16
+//@   results p err
+//@   checks[C16] lookup-failure-reported: implies(called(Glob) && (resultOf(Glob, 1) != nil || len(resultOf(Glob, 0)) != 1), err != nil)
+//@   checks[C16,C13] the-single-match-is-used: implies(err == nil, len(resultOf(Glob, 0)) == 1 && p == resultOf(Glob, 0)[0])
+
+//@ contract createRenumberTestsCommand#1
+//@   tags C13 C16
+//@   safety none
+//@   results r
+//@   modifies fsWrites
+//@   checks[C13,C16] all-files-verdict-is-returned: implies(called(RenumberTests), r == resultOf(RenumberTests, 0))
+//@   checks[C13,C16] single-file-verdict-is-returned: implies(called(RenumberTest), r == resultOf(RenumberTest, 0))
+//@   checks[C16] lookup-failure-is-returned: implies(called(parseFilePath) && resultOf(parseFilePath, 1) != nil, r != nil && !called(RenumberTest))
+//@   checks[C13,C16] something-was-renumbered: implies(r == nil, called(RenumberTests) || called(RenumberTest))
+
+// ---- C18 / C16: an argument that parseRuleId rejects stops the command before it runs
+//@ contract createGenerateCommand#0
+//@   tags C18 C16
+//@   safety none
+//@   results r
+//@   checks[C18,C16] a-rejected-argument-fails: implies(called(parseRuleId) && resultOf(parseRuleId, 0) != nil, r != nil)
+//@   checks[C18] every-other-argument-is-parsed: implies(r == nil && !ruleValues.useStdin, called(parseRuleId))
+
+//@ contract createUpdateCommand#1
+//@   tags C18 C16
+//@   safety none
+//@   results r
+//@   checks[C18,C16] a-rejected-argument-fails: implies(called(parseRuleId) && resultOf(parseRuleId, 0) != nil, r != nil)
+//@   checks[C18] a-given-argument-is-parsed: implies(len(args) > 0, called(parseRuleId))
+
+//@ contract createCompareCommand#1
+//@   tags C18 C16
+//@   safety none
+//@   results r
+//@   checks[C18,C16] a-rejected-argument-fails: implies(called(parseRuleId) && resultOf(parseRuleId, 0) != nil, r != nil)
+//@   checks[C18] a-given-argument-is-parsed: implies(len(args) > 0, called(parseRuleId))
+
+// ---- C14 / C16: update-copyright only runs with a version that Masterminds/semver accepts (the
+// read-side patterns are proved to match every such version, reglemmas in package regex), and it
+// hands exactly the validated version and the given year to the updater.
+func OpaqueIsSemver(v string) bool { _, err := semver.NewVersion(v); return err == nil }
+
+//@ extern semver.NewVersion
+//@   params v
+//@   results ver err
+//@   ensures (err == nil) == OpaqueIsSemver(v)
+
+//@ contract validateSemver
+//@   tags C14 C16
+//@   results r
+//@   ensures (r == nil) == OpaqueIsSemver(version)
+
+//@ contract createChoreUpdateCopyrightCommand#0
+//@   tags C14 C16
+//@   results r
+//@   checks[C16,C14] invalid-version-rejected: implies(!OpaqueIsSemver(copyrightVariables.Version), r != nil)
+//@   checks[C16] missing-version-rejected: implies(copyrightVariables.Version == "", r != nil)
+
+//@ contract createChoreUpdateCopyrightCommand#1
+//@   tags C14
+//@   modifies fsWrites
+//@   checks[C14] the-validated-values-are-used: called(UpdateCopyright) && argOf(UpdateCopyright, 1) == copyrightVariables.Version && argOf(UpdateCopyright, 2) == copyrightVariables.Year
 
 // ---- C20: the running version handed to the updater must be comparable -------------------------
 // (a development build hands in "dev", which Release.LessOrEqual cannot parse)
